@@ -8,7 +8,7 @@ LEVEL = "exploration"
 RULE = (
     "cases = (base sync or thread_pool, named or not; a with_* chain of 0-5 layers of every type split at a generated point into "
     "'before bind' and 'after bind'; explicit name= at generated positions; a callable that is a recording function, a "
-    "functools.partial of it, or a callable object carrying private attributes, returning a value, raising (so that retry layers "
+    "functools.partial of it, or a callable object carrying private attributes (one variant of it falsy: __len__() == 0), returning a value, raising (so that retry layers "
     "re-invoke it) or - for flat_bind - returning a future; positional and keyword arguments). Each case is run twice under the "
     "engine, in bind form (executor.bind(fn) [or flat_bind], then the remaining with_* calls on the bound callable, then a call) and "
     "in submit form (the same chain on the executor [plus with_flat_map(identity)], then submit(fn, *args)). Oracle (differential): "
@@ -176,7 +176,7 @@ def case_strategy():
         layers = draw(st.lists(layer(), min_size=0, max_size=5))
         cut = draw(st.integers(0, len(layers)))
         flat = draw(st.integers(0, 3)) == 0
-        kind = draw(st.sampled_from(["fn", "fn", "partial", "obj", "bound"]))  # bound: a callable already bound to another executor
+        kind = draw(st.sampled_from(["fn", "fn", "partial", "obj", "falsy", "bound"]))  # bound: a callable already bound to another executor
         if flat:
             script = draw(st.sampled_from([[["fut", "done"]], [["fut", "err", "E2"]], [["raise", "E0"], ["fut", "done"]], [["fut", "duck"]]]))
         else:
